@@ -209,3 +209,110 @@ func closedChan() chan struct{} {
 	close(c)
 	return c
 }
+
+// ---- xorCompressor: a Compressor/Decompressor pair simple enough to encode ----
+// compress(x) = 0xC5 marker byte followed by x with every byte XOR 0x5A.
+// The decompressor reads the whole source on the first Read after Reset
+// and fails if the marker is missing (a "corrupt" message).
+
+type xorCompressor struct {
+	w      io.Writer
+	wrote  bool
+	closed bool
+	resets int
+}
+
+func (c *xorCompressor) Reset(w io.Writer) { c.w = w; c.wrote = false; c.closed = false; c.resets++ }
+func (c *xorCompressor) Write(p []byte) (int, error) {
+	if !c.wrote {
+		c.wrote = true
+		if _, err := c.w.Write([]byte{0xC5}); err != nil {
+			return 0, err
+		}
+	}
+	out := make([]byte, len(p))
+	for i, b := range p {
+		out[i] = b ^ 0x5A
+	}
+	if _, err := c.w.Write(out); err != nil {
+		return 0, err
+	}
+	return len(p), nil
+}
+func (c *xorCompressor) Close() error {
+	if !c.wrote {
+		c.wrote = true
+		if _, err := c.w.Write([]byte{0xC5}); err != nil {
+			return err
+		}
+	}
+	c.closed = true
+	return nil
+}
+
+type xorDecompressor struct {
+	src      io.Reader
+	started  bool
+	buf      []byte
+	pos      int
+	err      error
+	resets   int
+	closes   int
+	readsSinceReset int
+	failClose bool
+}
+
+var errCorrupt = errors.New("xor: corrupt input")
+
+func (d *xorDecompressor) Reset(r io.Reader) error {
+	d.src = r
+	d.started = false
+	d.buf = nil
+	d.pos = 0
+	d.err = nil
+	d.resets++
+	d.readsSinceReset = 0
+	return nil
+}
+
+func (d *xorDecompressor) Read(p []byte) (int, error) {
+	d.readsSinceReset++
+	if !d.started {
+		d.started = true
+		all, err := io.ReadAll(d.src)
+		if err != nil {
+			d.err = err
+		} else if len(all) == 0 || all[0] != 0xC5 {
+			d.err = errCorrupt
+		} else {
+			d.buf = make([]byte, len(all)-1)
+			for i, b := range all[1:] {
+				d.buf[i] = b ^ 0x5A
+			}
+		}
+	}
+	if d.err != nil {
+		return 0, d.err
+	}
+	if d.pos >= len(d.buf) {
+		return 0, io.EOF
+	}
+	if len(p) == 0 {
+		return 0, nil
+	}
+	n := copy(p, d.buf[d.pos:])
+	d.pos += n
+	return n, nil
+}
+
+func (d *xorDecompressor) Close() error {
+	d.closes++
+	return nil
+}
+
+func newXorPool() *compressionPool {
+	return newCompressionPool(
+		func() Decompressor { return &xorDecompressor{} },
+		func() Compressor { return &xorCompressor{} },
+	)
+}
